@@ -116,7 +116,7 @@ def batch_worker(kp, job):
 def run(chk):
     b = core.standard_build(chk)
     model = core.Model() if b.modelrun_ok else None
-    full = chk.tier == 'thorough' or bool(b.drift) or not b.proof_ok
+    full = chk.tier == 'thorough' or bool(b.drift) or not b.proof_ok or not b.modelrun_ok
     n = core.budget(chk, full, 60, 500)
     chk.rule = ('generated documents (a clef in force for every note, accidentals up to two sharps / flats so that the agnostic '
                 'encodings are defined) x 3 category selections that keep durations or pitches x the six encodings; batch '
